@@ -1,6 +1,7 @@
 // Driver of property C17 (testscript honours Params.Deadline).
 //
 //	deadline run   -plan plan.ndjson -traces traces.ndjson -out result.json -work dir [-par n] [-group k]
+//	deadline viarun ... same flags, every call made through testscript.Run with a real *testing.T (via.go)
 //	deadline child -sock path -id n -x ms -onint die|ignore -status n
 //
 // "run" executes the cases TLC generated (spec/deadline/MC_DeadlinePlan.tla): every case
@@ -19,6 +20,7 @@ import (
 	"flag"
 	"fmt"
 	"os"
+	"path/filepath"
 	"syscall"
 	"unsafe"
 )
@@ -42,8 +44,9 @@ func main() {
 		childMain(os.Args[2:])
 	case "noop": // start-up cost probe
 		return
-	case "run":
+	case "run", "viarun":
 		fs := flag.NewFlagSet("run", flag.ExitOnError)
+		tt := fs.String("testtimeout", "10m", "viarun: the test binary's own -test.timeout")
 		plan := fs.String("plan", "", "cases (ndjson) emitted by TLC")
 		traces := fs.String("traces", "", "observations (ndjson) for TLC")
 		out := fs.String("out", "", "result json")
@@ -53,6 +56,12 @@ func main() {
 		smin := fs.Int("smin", 150, "base slack in ms")
 		stagger := fs.Int("stagger", 30, "ms between the starts of two RunT calls")
 		fs.Parse(os.Args[2:])
+		if os.Args[1] == "viarun" {
+			os.MkdirAll(*work, 0o755)
+			viaOut = filepath.Join(*work, "testout.txt")
+			viaMain(*tt, func() { runMain(*plan, *traces, *out, *work, *par, *group, *smin, *stagger) })
+			return
+		}
 		runMain(*plan, *traces, *out, *work, *par, *group, *smin, *stagger)
 	default:
 		fmt.Fprintln(os.Stderr, "unknown mode", os.Args[1])
